@@ -14,6 +14,8 @@ use std::collections::BTreeMap;
 use std::time::{Duration, Instant};
 
 pub const SEGS: [&str; 10] = ["a", "-", "$A", "${A}", "$AB", "${AB}", "$U", "${U}", "$?", "$$"];
+/// SEGS plus the characters that decide where an unbraced name ends or whether a `$` starts a reference at all
+pub const EXT: [&str; 16] = ["a", "-", "$A", "${A}", "$AB", "${AB}", "$U", "${U}", "$?", "$$", "_", "1", ".", "é", "$", "%"];
 pub const ENVS: [(&str, &str, &str, &str); 9] = [
     // (label, A, AB, B)
     ("plain", "va", "vab", "vb"),
@@ -40,7 +42,7 @@ pub struct Case {
 
 impl Case {
     fn word(&self) -> String {
-        self.segs.iter().map(|i| SEGS[*i]).collect()
+        self.segs.iter().map(|i| EXT[*i]).collect()
     }
     fn line(&self) -> String {
         let w = self.word();
@@ -84,7 +86,8 @@ pub fn reference(word: &str, vars: &BTreeMap<&str, &str>, pid: i32) -> String {
                 }
                 if j < b.len() {
                     let name: String = b[i + 2..j].iter().collect();
-                    let ok = !name.is_empty() && (name == "$" || name == "?" || name.chars().all(is_name));
+                    // (a name starts with a letter or `_`: `${1}` is a positional parameter, not a variable)
+                    let ok = !name.is_empty() && (name == "$" || name == "?" || (name.chars().all(is_name) && !name.chars().next().unwrap().is_ascii_digit()));
                     if ok {
                         out.push_str(&lookup(&name));
                         i = j + 1;
@@ -95,7 +98,7 @@ pub fn reference(word: &str, vars: &BTreeMap<&str, &str>, pid: i32) -> String {
                 out.push_str(&lookup(&b[i + 1].to_string()));
                 i += 2;
                 continue;
-            } else if is_name(b[i + 1]) {
+            } else if is_name(b[i + 1]) && !b[i + 1].is_ascii_digit() {
                 let mut j = i + 1;
                 while j < b.len() && is_name(b[j]) {
                     j += 1;
@@ -219,6 +222,32 @@ fn cases(nsegs: usize, envs: &'static [usize]) -> Box<dyn Iterator<Item = Case>>
     }))
 }
 
+/// words over EXT that use at least one of the additional segments
+fn cases_ext(nsegs: usize, envs: &'static [usize]) -> Box<dyn Iterator<Item = Case>> {
+    let total = (EXT.len() as u64).pow(nsegs as u32);
+    Box::new((0..total).flat_map(move |mut x| {
+        let mut segs = vec![0usize; nsegs];
+        for p in (0..nsegs).rev() {
+            segs[p] = (x % EXT.len() as u64) as usize;
+            x /= EXT.len() as u64;
+        }
+        let mut v = Vec::new();
+        // (`$1` is a positional parameter: outside of scripts its expansion is not part of this property)
+        let positional = segs.windows(2).any(|w| EXT[w[0]] == "$" && EXT[w[1]] == "1");
+        if segs.iter().any(|i| *i >= SEGS.len()) && !positional {
+            for &env in envs {
+                for exported in [true, false] {
+                    for quote in 0..3u8 {
+                        v.push(Case { env, exported, shadow: false, quote, segs: segs.clone() });
+                    }
+                }
+            }
+        }
+        v.into_iter()
+    }))
+}
+
+static EXT_ENVS: [usize; 3] = [0, 1, 8];
 static ALL_ENVS: [usize; 9] = [0, 1, 2, 3, 4, 5, 6, 7, 8];
 static HOT_ENVS: [usize; 3] = [5, 6, 8];
 static SELF_ENVS: [usize; 2] = [5, 6];
@@ -229,7 +258,7 @@ pub fn run(ctx: &Ctx) -> Value {
     std::env::set_current_dir(&cwd).unwrap();
     std::env::set_var("PATH", format!("{}/nopath", ctx.scratch));
     std::env::set_var("HOME", &cwd);
-    let budget = if ctx.thorough() { 1500 } else { 40 };
+    let budget = if ctx.thorough() { 1500 } else { 55 };
     let deadline = Instant::now() + Duration::from_secs(budget);
     let mk = |label: &str| SweepOpts {
         workers: ctx.workers,
@@ -245,6 +274,11 @@ pub fn run(ctx: &Ctx) -> Value {
     for n in 1..=3usize {
         steps.push((format!("words of {} segments x 9 envs x exported/local x 3 quote forms", n), Box::new(move || cases(n, &ALL_ENVS))));
     }
+    // name boundaries: a reference followed by `_`, a digit, `.`, a multi-byte character; a lone `$`; `$%`
+    let next = if ctx.thorough() { 4 } else { 3 };
+    steps.push((format!("words of 2..{} segments over the extended segment set (name-boundary characters) x 3 envs", next), Box::new(move || {
+        Box::new((2..=next).flat_map(|n| cases_ext(n, &EXT_ENVS)))
+    })));
     // a name that was a local variable first and was exported afterwards: the exported value is the current one
     let nshadow = if ctx.thorough() { 3 } else { 2 };
     steps.push((format!("words of 1..{} segments x 9 envs, names local then exported, 3 quote forms", nshadow), Box::new(move || {
